@@ -118,3 +118,57 @@ def form_text(form):
         c = form[k]
         parts.append(f"{c:+d}" if k == "" else (f"{'+' if c > 0 else '-'}{'' if abs(c) == 1 else abs(c)}{'*' if abs(c) != 1 else ''}{k}"))
     return " ".join(parts) or "0"
+
+
+def _strip_casts(n):
+    """x.astype(t), int(x), float(x), np.int32(x) ... -> x (value-preserving wrappers for the purpose of term structure)."""
+    while True:
+        if isinstance(n, ast.Call) and isinstance(n.func, ast.Attribute) and n.func.attr == "astype" and len(n.args) <= 1:
+            n = n.func.value
+        elif isinstance(n, ast.Call) and len(n.args) == 1 and not n.keywords and norm(n.func) in ("int", "float", "np.int16", "np.int32", "np.int64", "np.double", "np.float64", "np.float32"):
+            n = n.args[0]
+        else:
+            return n
+
+
+def poly(e):
+    """e expanded over + - * into {sorted tuple of atom texts: integer coefficient} (atoms: any other sub-expression after
+    stripping value-preserving casts). `a * (x - z)` and `a * x - a * z` have the same expansion; `a * x - z` does not."""
+    e = _strip_casts(e)
+    if isinstance(e, ast.Constant) and isinstance(e.value, int) and not isinstance(e.value, bool):
+        return {(): e.value} if e.value else {}
+    if isinstance(e, ast.UnaryOp) and isinstance(e.op, ast.USub):
+        return {k: -v for k, v in poly(e.operand).items()}
+    if isinstance(e, ast.UnaryOp) and isinstance(e.op, ast.UAdd):
+        return poly(e.operand)
+    if isinstance(e, ast.BinOp) and isinstance(e.op, (ast.Add, ast.Sub)):
+        a, b = poly(e.left), poly(e.right)
+        out = dict(a)
+        for k, v in b.items():
+            out[k] = out.get(k, 0) + (v if isinstance(e.op, ast.Add) else -v)
+        return {k: v for k, v in out.items() if v}
+    if isinstance(e, ast.BinOp) and isinstance(e.op, ast.Mult):
+        a, b = poly(e.left), poly(e.right)
+        out = {}
+        for ka, va in a.items():
+            for kb, vb in b.items():
+                k = tuple(sorted(ka + kb))
+                out[k] = out.get(k, 0) + va * vb
+        return {k: v for k, v in out.items() if v}
+    return {(str(norm(e)),): 1}
+
+
+def offset_paired(e, code, zero_point):
+    """True iff every term of poly(e) that contains the atom `code` is matched by the same term with `zero_point` in its
+    place and the opposite coefficient, i.e. e depends on the code only through (code - zero_point). None if e does
+    not mention the code at all."""
+    p = poly(e)
+    if not any(code in k for k in p):
+        return None
+    for k, v in p.items():
+        if code in k:
+            kk = list(k)
+            kk[kk.index(code)] = zero_point
+            if p.get(tuple(sorted(kk)), 0) != -v:
+                return False
+    return True
